@@ -225,9 +225,10 @@ func (g *lifoGen) next(s *sys) []uint64 {
 }
 
 // forcedScript: park A between its load and its CAS, let B complete an operation, then step A.
-func (g *lifoGen) forcedScript(w *hist.W) {
+// base: number of actors that exist already (created by a corpus prefix).
+func (g *lifoGen) forcedScript(w *hist.W, base int) {
 	var evs [][]uint64
-	n := 0
+	n := base
 	// optional pre-population by complete pushes
 	for k := g.r.IntN(3); k > 0; k-- {
 		evs = append(evs, []uint64{1, g.value(w)}, []uint64{3, uint64(n)}, []uint64{3, uint64(n)})
@@ -254,19 +255,76 @@ func (g *lifoGen) forcedScript(w *hist.W) {
 	g.script = evs
 }
 
+// corpusMotifs: the scheduled corpus histories (not the free-running ones) of the model being run (lifo or linkedlist),
+// used as PREFIXES of a share of the random histories (a random cut of a random corpus history is replayed first, then
+// generation continues at random from the situation it reached): the corner cases that were worth writing down are then
+// also explored in their neighbourhood, not only replayed verbatim.
+var corpusMotifs []hist.H
+
+// loadMotifs loads the corpus and keeps its scheduled histories (config not [1 …]) as motifs.
+func loadMotifs() []hist.H {
+	all := hist.LoadCorpus(*hist.Corpus)
+	corpusMotifs = nil
+	for _, h := range all {
+		if !(len(h.Cfg) > 0 && h.Cfg[0] == 1) && len(h.Evs) > 0 {
+			corpusMotifs = append(corpusMotifs, h)
+		}
+	}
+	return all
+}
+
+// motifOf draws (from the history's own PRNG) whether this random history starts with a corpus prefix, and which.
+func motifOf(r *rand.Rand) (cfg []uint64, prefix [][]uint64) {
+	if len(corpusMotifs) > 0 && r.IntN(6) == 0 {
+		m := corpusMotifs[r.IntN(len(corpusMotifs))]
+		return m.Cfg, m.Evs[:1+r.IntN(len(m.Evs))]
+	}
+	return nil, nil
+}
+
 func runLifoRandom(t *testing.T, w *hist.W, h int) {
 	r := hist.Rng(h)
 	synctest.Test(t, func(t *testing.T) {
+		_, prefix := motifOf(r)
 		s := newSys(w)
 		defer s.teardown()
 		w.Begin(fmt.Sprintf("r%d", h), []uint64{0})
 		g := &lifoGen{r: r, nOps: 2 + r.IntN(9), maxPen: 2 + r.IntN(3), last: -1}
+		obs := s.status()
+		for _, ev0 := range prefix {
+			ev := append([]uint64{}, ev0...)
+			if len(ev) == 0 {
+				break
+			}
+			before := obs
+			o, ok := s.exec(ev)
+			if !ok {
+				break
+			}
+			if ev[0] != 4 {
+				obs = o
+			}
+			s.count(ev, before, o)
+			w.Step(ev, o)
+			// the generator's own bookkeeping: calls made, values in use (fresh values stay fresh)
+			switch ev[0] {
+			case 1:
+				g.calls++
+				g.used = append(g.used, ev[1])
+				g.nextV = max(g.nextV, ev[1])
+			case 2:
+				g.calls++
+			}
+		}
+		if prefix != nil {
+			w.Count("random_with_corpus_prefix", 1)
+			g.nOps += g.calls
+		}
 		if r.IntN(10) < 3 {
-			g.forcedScript(w)
+			g.forcedScript(w, len(s.c.Acts))
 			w.Count("lifo.forced_script", 1)
 		}
 		leavePending := r.IntN(100) < 15
-		obs := s.status()
 		for k := 0; k < 120; k++ {
 			if leavePending && g.calls >= g.nOps && len(g.script) == 0 && r.IntN(4) == 0 {
 				break
@@ -433,7 +491,7 @@ func runLifo(t *testing.T) {
 		}
 		return
 	}
-	for _, h := range hist.LoadCorpus(*hist.Corpus) {
+	for _, h := range loadMotifs() {
 		runLifoFixed(t, w, h.ID, h.Cfg, h.Evs)
 		w.Count("corpus", 1)
 	}
@@ -538,8 +596,31 @@ func runLLRandom(w *hist.W, h int) {
 	for k := r.IntN(4) - 1; k > 0; k-- { // 0,0,1,2 initial elements
 		cfg = append(cfg, uint64(100+r.IntN(50)))
 	}
+	mcfg, prefix := motifOf(r)
+	if prefix != nil {
+		cfg = append([]uint64{}, mcfg...)
+		if len(cfg) == 0 {
+			cfg = []uint64{0}
+		}
+	}
 	s := newLL(w, cfg)
 	w.Begin(fmt.Sprintf("r%d", h), cfg)
+	for _, ev0 := range prefix {
+		ev := append([]uint64{}, ev0...)
+		if len(ev) == 0 {
+			break
+		}
+		sz := s.size
+		obs, ok := s.exec(ev)
+		if !ok {
+			break
+		}
+		s.count(ev, obs, sz)
+		w.Step(ev, obs)
+	}
+	if prefix != nil {
+		w.Count("random_with_corpus_prefix", 1)
+	}
 	steps := 5 + r.IntN(36)
 	nextV := uint64(0)
 	for k := 0; k < steps; k++ {
@@ -695,7 +776,7 @@ func runLL(t *testing.T) {
 		}
 		return
 	}
-	for _, h := range hist.LoadCorpus(*hist.Corpus) {
+	for _, h := range loadMotifs() {
 		runLLFixed(w, h.ID, h.Cfg, h.Evs)
 		w.Count("corpus", 1)
 	}
